@@ -42,6 +42,7 @@ type vfc43T struct {
 	Query    string
 	Step     int64
 	MSR      int64
+	Auto     bool      // max_source_resolution=auto: the codec sets MaxSourceResolution = step/5
 	Shard    *[2]int64 // total, index
 	Lookback int64
 	Engine   string
@@ -52,6 +53,14 @@ type vfc43T struct {
 	Start    int64
 	Label    string
 	Matchers [][]vfc43M
+}
+
+// effMSR is the max source resolution the decoded request carries.
+func (t vfc43T) effMSR() int64 {
+	if t.Auto {
+		return t.Step / 5
+	}
+	return t.MSR
 }
 
 func vfc43ResClass(msr int64) int {
@@ -104,7 +113,7 @@ func (t vfc43T) fields() [][2]string {
 		}
 		return [][2]string{
 			{"tenant", t.Tenant}, {"query", t.Query}, {"step", strconv.FormatInt(t.Step, 10)}, {"split_bucket", bucket},
-			{"resolution", strconv.Itoa(vfc43ResClass(t.MSR))}, {"shard", sh}, {"lookback", strconv.FormatInt(t.Lookback, 10)},
+			{"resolution", strconv.Itoa(vfc43ResClass(t.effMSR()))}, {"shard", sh}, {"lookback", strconv.FormatInt(t.Lookback, 10)},
 			{"engine", t.Engine}, {"partial_response", strconv.FormatBool(t.Partial)}, {"replica_labels", fmt.Sprintf("%q", vfc43ReplicaSet(t.Replica))},
 			{"analyze", strconv.FormatBool(t.Analyze)},
 		}
@@ -144,7 +153,7 @@ func (t vfc43T) request() queryrange.Request {
 	switch t.Kind {
 	case "range":
 		q := &ThanosQueryRangeRequest{Path: "/api/v1/query_range", Start: t.Start, End: t.Start, Step: t.Step, Query: t.Query, Dedup: true,
-			PartialResponse: t.Partial, MaxSourceResolution: t.MSR, ReplicaLabels: t.Replica, LookbackDelta: t.Lookback, Analyze: t.Analyze,
+			PartialResponse: t.Partial, MaxSourceResolution: t.effMSR(), AutoDownsampling: t.Auto, ReplicaLabels: t.Replica, LookbackDelta: t.Lookback, Analyze: t.Analyze,
 			Engine: t.Engine, SplitInterval: si}
 		if t.Shard != nil {
 			q.ShardInfo = &storepb.ShardInfo{TotalShards: t.Shard[0], ShardIndex: t.Shard[1], By: true, Labels: []string{"a"}}
@@ -167,7 +176,8 @@ func (t vfc43T) witness() map[string]any {
 	m := map[string]any{"kind": t.Kind, "tenant": t.Tenant, "split_interval_ms": t.SplitMs, "start_ms": t.Start, "partial_response": t.Partial}
 	switch t.Kind {
 	case "range":
-		m["query"], m["step_ms"], m["max_source_resolution_ms"], m["lookback_ms"], m["engine"] = t.Query, t.Step, t.MSR, t.Lookback, t.Engine
+		m["query"], m["step_ms"], m["max_source_resolution_ms"], m["lookback_ms"], m["engine"] = t.Query, t.Step, t.effMSR(), t.Lookback, t.Engine
+		m["max_source_resolution_auto"] = t.Auto
 		m["replica_labels"], m["analyze"] = t.Replica, t.Analyze
 		if t.Shard != nil {
 			m["shard_total_index"] = *t.Shard
@@ -266,6 +276,12 @@ var (
 	}
 )
 
+// matcher values that can imitate the rendering of further matchers / matcher sets
+var vfc43QuoteValues = vfc43Strings([]string{"x", "\"", "\" b=\"", "\"] [b=\"", "\\", " ", "]"}, 2)
+
+// the common dashboard steps (the frontend looks for alternative keys among them)
+var vfc43CommonSteps = []int64{1000, 5000, 10000, 15000, 20000, 30000, 60000, 120000, 300000, 600000, 900000, 1800000, 3600000, 7200000, 10800000, 21600000, 43200000}
+
 func vfc43NewSpace(seed int64, thorough bool) *vfc43Space {
 	maxLen := 3
 	if thorough {
@@ -301,6 +317,31 @@ func vfc43NewSpace(seed int64, thorough bool) *vfc43Space {
 				Replica: vfc43ReplicaOpts[ix[4]], Partial: ix[5] == 1}
 		}},
 	}
+	nq := len(vfc43QuoteValues)
+	sp.blocks = append(sp.blocks,
+		vfc43Block{name: "labels+series:matcher lists [[a=V]], [[a=V b=W]], [[a=V] [b=W]] over values with quotes/brackets/backslash/space", dims: []int{2, 3, nq, nq}, mk: func(ix []int) vfc43T {
+			t := vfc43T{Kind: []string{"labels", "series"}[ix[0]], Tenant: "a", SplitMs: 1, Start: 0}
+			a, b := vfc43M{labels.MatchEqual, "a", vfc43QuoteValues[ix[2]]}, vfc43M{labels.MatchEqual, "b", vfc43QuoteValues[ix[3]]}
+			switch ix[1] {
+			case 0:
+				t.Matchers = [][]vfc43M{{a}} // W unused: the same tuple is generated nq times, which is harmless
+			case 1:
+				t.Matchers = [][]vfc43M{{a, b}}
+			default:
+				t.Matchers = [][]vfc43M{{a}, {b}}
+			}
+			return t
+		}},
+		vfc43Block{name: "range:resolution {auto, 0, 3m, 12m, 72m} x common step x split x bucket x tenant x query (alternative keys always checked)", dims: []int{5, len(vfc43CommonSteps), 2, 2, 2, 2}, mk: func(ix []int) vfc43T {
+			si := []int64{3600000, 86400000}[ix[2]]
+			t := vfc43T{Kind: "range", Tenant: []string{"a", "a:1"}[ix[4]], Query: []string{"a", "a:1"}[ix[5]], Step: vfc43CommonSteps[ix[1]], SplitMs: si, Start: int64(ix[3]) * si}
+			if ix[0] == 0 {
+				t.Auto = true
+			} else {
+				t.MSR = []int64{0, 180000, 720000, 4320000}[ix[0]-1]
+			}
+			return t
+		}})
 	for _, b := range sp.blocks {
 		sp.exh += b.size()
 	}
@@ -345,6 +386,20 @@ func vfc43Str(g *vfc43Rng, maxParts int, utf8 bool) string {
 	return s
 }
 
+// vfc43MStr: matcher names/values; besides the adversarial alphabet the characters of the matcher rendering itself.
+func vfc43MStr(g *vfc43Rng, maxParts int) string {
+	n := g.intn(maxParts + 1)
+	s := ""
+	for i := 0; i < n; i++ {
+		if g.intn(2) == 0 {
+			s += []string{"\"", "\\", "[", "]", " ", "\n", "=", "a", "b", "\" b=\"", "\"] [", "1"}[g.intn(12)]
+		} else {
+			s += vfc43Str(g, 1, true)
+		}
+	}
+	return s
+}
+
 func vfc43Int(g *vfc43Rng) int64 {
 	switch g.intn(4) {
 	case 0:
@@ -376,7 +431,7 @@ func (sp *vfc43Space) random(id uint64) vfc43T {
 		for i, n := 0, g.intn(3); i < n; i++ {
 			var set []vfc43M
 			for j, k := 0, 1+g.intn(2); j < k; j++ {
-				set = append(set, vfc43M{T: labels.MatchType(g.intn(2)), N: vfc43Str(&g, 2, true), V: vfc43Str(&g, 3, true)})
+				set = append(set, vfc43M{T: labels.MatchType(g.intn(2)), N: vfc43MStr(&g, 2), V: vfc43MStr(&g, 3)})
 			}
 			out = append(out, set)
 		}
@@ -399,6 +454,11 @@ func (sp *vfc43Space) random(id uint64) vfc43T {
 			t.Step = 1
 		}
 		t.MSR = []int64{0, 1, 299999, 300000, 300001, 3599999, 3600000, 7200000}[g.intn(8)]
+		if g.intn(4) == 0 {
+			t.Auto = true
+			t.Step = vfc43CommonSteps[g.intn(len(vfc43CommonSteps))]
+			t.Start = t.Start / t.SplitMs * t.SplitMs / t.Step * t.Step
+		}
 		if g.intn(2) == 0 {
 			t.Shard = &[2]int64{1 + vfc43Int(&g), vfc43Int(&g)}
 		}
@@ -555,6 +615,105 @@ func vfc43ParseMatchers(s string) ([][]vfc43M, bool) {
 	return out, true
 }
 
+// vfc43Unesc removes backslash escapes (\x -> x).
+func vfc43Unesc(s string) string {
+	if !strings.Contains(s, "\\") {
+		return s
+	}
+	var b strings.Builder
+	for i := 0; i < len(s); i++ {
+		if s[i] == '\\' && i+1 < len(s) {
+			i++
+		}
+		b.WriteByte(s[i])
+	}
+	return b.String()
+}
+
+// vfc43SplitUnesc splits at separators that are not preceded by a backslash escape.
+func vfc43SplitUnesc(s string, sep byte) []string {
+	var out []string
+	cur := 0
+	for i := 0; i < len(s); i++ {
+		if s[i] == '\\' {
+			i++
+			continue
+		}
+		if s[i] == sep {
+			out = append(out, s[cur:i])
+			cur = i + 1
+		}
+	}
+	return append(out, s[cur:])
+}
+
+// vfc43ParseMatchersNaive reads the rendering without any notion of escaping: a value ends at the next '"'
+// that is followed by ' ' or ']'. It proposes the matcher list a rendering LOOKS like.
+func vfc43ParseMatchersNaive(s string) ([][]vfc43M, bool) {
+	if s == "[]" {
+		return [][]vfc43M{}, true
+	}
+	if len(s) < 4 || s[0] != '[' || s[len(s)-1] != ']' {
+		return nil, false
+	}
+	s = s[1 : len(s)-1]
+	var out [][]vfc43M
+	for len(s) > 0 {
+		if s[0] != '[' {
+			return nil, false
+		}
+		s = s[1:]
+		var set []vfc43M
+		for {
+			if len(s) > 0 && s[0] == ']' {
+				s = s[1:]
+				break
+			}
+			i := strings.IndexAny(s, "=!")
+			if i <= 0 {
+				return nil, false
+			}
+			var m vfc43M
+			m.N, s = s[:i], s[i:]
+			switch {
+			case strings.HasPrefix(s, "=~\""):
+				m.T, s = labels.MatchRegexp, s[3:]
+			case strings.HasPrefix(s, "!~\""):
+				m.T, s = labels.MatchNotRegexp, s[3:]
+			case strings.HasPrefix(s, "!=\""):
+				m.T, s = labels.MatchNotEqual, s[3:]
+			case strings.HasPrefix(s, "=\""):
+				m.T, s = labels.MatchEqual, s[2:]
+			default:
+				return nil, false
+			}
+			end := -1
+			for j := 0; j+1 < len(s); j++ {
+				if s[j] == '"' && (s[j+1] == ' ' || s[j+1] == ']') {
+					end = j
+					break
+				}
+			}
+			if end < 0 {
+				return nil, false
+			}
+			m.V, s = s[:end], s[end+1:]
+			set = append(set, m)
+			if len(s) > 0 && s[0] == ' ' {
+				s = s[1:]
+			}
+		}
+		out = append(out, set)
+		if len(s) > 0 {
+			if s[0] != ' ' {
+				return nil, false
+			}
+			s = s[1:]
+		}
+	}
+	return out, true
+}
+
 // vfc43Reparse returns other tuples whose key might be the same string, obtained by cutting key at
 // every combination of ':' positions. At most limit candidates.
 func vfc43Reparse(key string, limit int) []vfc43T {
@@ -630,15 +789,45 @@ func vfc43Reparse(key string, limit int) []vfc43T {
 		ci, ok2 := vfc43CanonInt(p[n-1])
 		if ok1 && ok2 && si > 0 && ci >= 0 && ci <= 1<<40/si {
 			m := n - 2
-			for a := 1; a < m && len(out) < limit; a++ {
-				if ms, ok := vfc43ParseMatchers(join(a, m)); ok {
-					for _, partial := range []bool{false} {
-						out = append(out, vfc43T{Kind: "series", Tenant: join(0, a), Matchers: ms, SplitMs: si, Start: ci * si, Partial: partial})
+			add := func(t vfc43T) {
+				out = append(out, t)
+				if u := vfc43Unesc(t.Tenant); u != t.Tenant { // keys may hold the tenant / label escaped
+					t.Tenant = u
+					out = append(out, t)
+				}
+				if t.Kind == "labels" {
+					if u := vfc43Unesc(t.Label); u != t.Label {
+						t.Label = u
+						out = append(out, t)
 					}
 				}
-				for b := a + 1; b < m && len(out) < limit; b++ {
-					if ms, ok := vfc43ParseMatchers(join(b, m)); ok {
-						out = append(out, vfc43T{Kind: "labels", Tenant: join(0, a), Label: join(a, b), Matchers: ms, SplitMs: si, Start: ci * si})
+			}
+			parsers := []func(string) ([][]vfc43M, bool){vfc43ParseMatchers, vfc43ParseMatchersNaive}
+			for a := 1; a < m && len(out) < limit; a++ {
+				for _, parse := range parsers {
+					// series, format tenant:matchers
+					if ms, ok := parse(join(a, m)); ok {
+						add(vfc43T{Kind: "series", Tenant: join(0, a), Matchers: ms, SplitMs: si, Start: ci * si})
+					}
+					// series, format tenant:matchers:partial:replicas
+					for b := a + 1; b < m && len(out) < limit; b++ {
+						if p[b] != "true" && p[b] != "false" {
+							continue
+						}
+						if ms, ok := parse(join(a, b)); ok {
+							var rep []string
+							if rs := join(b+1, m); rs != "" {
+								for _, x := range vfc43SplitUnesc(rs, ',') {
+									rep = append(rep, vfc43Unesc(x))
+								}
+							}
+							add(vfc43T{Kind: "series", Tenant: join(0, a), Matchers: ms, SplitMs: si, Start: ci * si, Partial: p[b] == "true", Replica: rep})
+						}
+					}
+					for b := a + 1; b < m && len(out) < limit; b++ {
+						if ms, ok := parse(join(b, m)); ok {
+							add(vfc43T{Kind: "labels", Tenant: join(0, a), Label: join(a, b), Matchers: ms, SplitMs: si, Start: ci * si})
+						}
 					}
 				}
 			}
@@ -724,15 +913,19 @@ func TestVF_C43(t *testing.T) {
 				} else {
 					seen[h] = uint32(id)
 				}
-				if tp.Kind == "range" && id%4 == 0 {
-					// alternative keys
+				if tp.Kind == "range" && (id%4 == 0 || tp.Auto) {
+					// Alternative keys: the frontend may answer tp from the entry stored under such a key. It must be the
+					// primary key of a request that equals tp in every result-changing parameter except the step
+					// (finer, dividing tp's step): same tenant, query, resolution class, shard, ...
 					alts := gen.GenerateCacheKeyAlternatives(tp.Tenant, tp.request())
 					for _, ak := range alts {
 						r.Eval(1)
 						r.Count("alternative_keys", 1)
 						found := int64(0)
+						base := tp
+						base.Auto, base.MSR = false, tp.effMSR() // the resolution the request is entitled to
 						for _, s := range vfc43AltSteps {
-							t2 := tp
+							t2 := base
 							t2.Step = s
 							if k2, _ := vfc43Key(gen, t2); k2 == ak {
 								found = s
@@ -740,10 +933,36 @@ func TestVF_C43(t *testing.T) {
 							}
 						}
 						switch {
-						case found == 0 && rep:
-							r.Violation(c, "range:alternative-key:not-a-primary-key-of-this-request-at-another-step", fmt.Sprintf("alternative key %q of a request with step %d", ak, tp.Step),
-								map[string]any{"request": tp.witness(), "alternative_key": ak})
-						case found != 0 && (found >= tp.Step || tp.Step%found != 0) && rep:
+						case found == 0:
+							// whose primary key is it then? look among requests of the other resolution classes
+							var other *vfc43T
+							for _, s := range vfc43AltSteps {
+								for _, msr := range []int64{0, 300000, 3600000} {
+									t2 := base
+									t2.Step, t2.MSR = s, msr
+									if k2, _ := vfc43Key(gen, t2); k2 == ak && other == nil {
+										o := t2
+										other = &o
+									}
+								}
+							}
+							if !rep {
+								break
+							}
+							if other != nil {
+								b := *other
+								if tp.Auto && vfc43ResClass(b.Step/5) == vfc43ResClass(b.MSR) {
+									b.Auto = true // the same key is the primary key of the auto request with that step
+								}
+								r.Violation(c, "range:alternative-key:is-primary-key-of-request-differing-in=resolution",
+									fmt.Sprintf("alternative key %q of a request with step %d and resolution class %d is the primary key of a request with step %d and resolution class %d",
+										ak, tp.Step, vfc43ResClass(tp.effMSR()), b.Step, vfc43ResClass(b.effMSR())),
+									map[string]any{"request": tp.witness(), "alternative_key": ak, "primary_key_of": b.witness()})
+							} else {
+								r.Violation(c, "range:alternative-key:not-a-primary-key-of-this-request-at-another-step", fmt.Sprintf("alternative key %q of a request with step %d", ak, tp.Step),
+									map[string]any{"request": tp.witness(), "alternative_key": ak})
+							}
+						case (found >= tp.Step || tp.Step%found != 0) && rep:
 							r.Violation(c, "range:alternative-key:step-does-not-divide", fmt.Sprintf("alternative key %q is the key of step %d, request step %d", ak, found, tp.Step),
 								map[string]any{"request": tp.witness(), "alternative_key": ak, "alternative_step": found})
 						}
